@@ -6,13 +6,19 @@ plain (-O2), asan (-O1 + ASan/UBSan) and, thorough only, lto (-O2 -flto), each
 with and without CPUSUPPORT_X86_AESNI:
 
  (a) after SHA256/SHA1/MD5_Final and HMAC_*_Final every byte of the context
-     object (pre-filled with 0xA5, on the heap in an exact-size block and in a
-     stack frame) is read back and must be 0;
+     object (pre-filled with 0xA5; placed at every legal alignment - 0/8 resp.
+     0/4/8/12 bytes past a 16-byte boundary - at the end of an exact-size heap
+     block and in a stack frame) is read back and must be 0;
+ (a') the primitive itself: insecure_memzero(p + off, len) for every len
+     0..130 (thorough 0..600) and off 0..15 on heap and stack buffers
+     pre-filled with a non-zero byte: exactly [off, off+len) must be zero;
  (b) a free-time hook (wrapalloc under malloc/calloc/realloc/free/strdup,
      CRYPTO_set_mem_functions under OpenSSL) searches every block the library
-     hands back for >= 16-byte windows (>= 8 for text) of the secret byte images
+     hands back for >= 16-byte windows (>= 8 for AES key bytes and text) of the secret byte images
      of the current case: raw AES key, all round keys (independent FIPS-197
-     schedule, byte and 32-bit-word-swapped layouts), AES-CTR keystream blocks
+     schedule, byte and 32-bit-word-swapped layouts; 8-byte windows; every
+     key case runs with the library's blocks 16-byte aligned and again with
+     blocks that are 8 mod 16), AES-CTR keystream blocks
      (independent CTR model), bignum images of x, x+k*2^256, x+2^258, r,
      r+2^256, (x+2^258)-(r+2^256), and the secret text of failing key files.
      "Secret bytes absent", not "block all zero".
@@ -85,15 +91,30 @@ def lenclass(n):
     return (min(n // 16, 5), n % 16 == 0)
 
 
+# Legal placements of a context object relative to a 16-byte boundary: the
+# multiples of its alignment (SHA256_CTX holds a uint64_t; the others only
+# uint32_t).  The driver verifies this with _Alignof.
+OFFS = {'sha256': [0, 8], 'sha1': [0, 4, 8, 12], 'md5': [0, 4, 8, 12]}
+
+
 def gen_ctx(rnd, tier, shard, nshards, add):
     top = 300 if tier == 'quick' else 600
     klens = [0, 1, 20, 32, 63, 64, 65, 100, 128, 200]
     rounds = 1 if tier == 'quick' else 5
+    turn = {}
+
+    def place(alg, l, hm):
+        # every (type, heap/stack) pair walks through its legal offsets
+        k = (alg, l, hm)
+        turn[k] = turn.get(k, shard) + 1
+        return '%s%d' % (l, OFFS[alg][turn[k] % len(OFFS[alg])])
+
     for n in list(range(0, top + 1)) * rounds:
         if n % nshards != shard:
             continue
         for alg in ALGS:
-            for loc in 'hs':
+            for l in 'hs':
+                loc = place(alg, l, 0)
                 m = rbytes(rnd, n)
                 style = rnd.choice(['one', 'bytes', 'rand', 'rand', 'empty-ends'])
                 p = partition(rnd, n, style) if n or rnd.random() < 0.5 else []
@@ -102,6 +123,7 @@ def gen_ctx(rnd, tier, shard, nshards, add):
                     'H %s %s %d %s %s' % (alg, loc, reps, core.hx(m), pstr(p)),
                     HL[alg](m).hexdigest(),
                     sig('H', alg, loc, n, len(p), reps), True, alg=alg)
+                loc = place(alg, l, 1)
                 kl = rnd.choice(klens + [rnd.randrange(0, 300)])
                 k = rbytes(rnd, kl)
                 m = rbytes(rnd, n)
@@ -115,7 +137,7 @@ def gen_ctx(rnd, tier, shard, nshards, add):
     extra = 6 if tier == 'quick' else 150
     for _ in range(extra):
         alg = rnd.choice(ALGS)
-        loc = rnd.choice('hs')
+        loc = '%s%d' % (rnd.choice('hs'), rnd.choice(OFFS[alg]))
         n = rnd.choice([rnd.randrange(0, 3000), rnd.randrange(0, 40000)])
         m = rbytes(rnd, n)
         p = partition(rnd, n, 'rand')
@@ -150,12 +172,28 @@ def rkey(rnd):
     return k
 
 
+def gen_zero(rnd, tier, shard, add):
+    """Direct monitor of insecure_memzero: one line sweeps every length
+    0..maxlen x offset 0..15 x {heap with slack, exact heap, stack}."""
+    maxlen = 130 if tier == 'quick' else 600
+    fills = [0xA5] + [rnd.randrange(1, 256) for _ in range(1 if tier == 'quick' else 3)]
+    if shard % 3 == 1:
+        fills.append(0xFF)
+    if shard % 3 == 2:
+        fills.append(0x01)
+    for f in fills:
+        add('zero', 'memzero', 'Z %d %02x' % (maxlen, f), '', sig('Z', maxlen, f), True)
+
+
 def gen_aes(rnd, n, add):
     for i in range(n):
         k = rkey(rnd)
         nb = rnd.choice([0, 1, 1, 2, 5])
-        add('aes', 'aes-key', 'K %s %d' % (k.hex(), nb), '',
-            sig('K', len(k), nb, i if k not in SPECIAL_KEYS else k), True)
+        # the same key with 16-byte-aligned blocks and with blocks 8 mod 16
+        for mode in ('', ' m'):
+            add('aes', 'aes-key' + ('-misaligned' if mode else ''),
+                'K %s %d%s' % (k.hex(), nb, mode), '',
+                sig('K', len(k), nb, mode, i if k not in SPECIAL_KEYS else k), True)
 
 
 def gen_script(rnd, two, big):
@@ -204,8 +242,10 @@ def gen_ctr(rnd, n, tier, add):
         two = rnd.random() < 0.5
         k2 = rkey(rnd) if two else None
         script, shape = gen_script(rnd, two, big)
-        add('ctr', 'aes-ctr', 'S %s %s %s' % (k1.hex(), k2.hex() if k2 else '-', script),
-            '', sig('S', len(k1), len(k2) if k2 else 0, shape), True)
+        mode = rnd.choice(['', ' m'])
+        add('ctr', 'aes-ctr' + ('-misaligned' if mode else ''),
+            'S %s %s %s%s' % (k1.hex(), k2.hex() if k2 else '-', script, mode),
+            '', sig('S', len(k1), len(k2) if k2 else 0, shape, mode), True)
 
 
 def images(v):
@@ -430,6 +470,7 @@ def gen_cases(seed, tier, shard, nshards):
         return max(1, int(tot * sc) // nshards)
 
     gen_ctx(rnd, tier, shard, nshards, add)
+    gen_zero(rnd, tier, shard, add)
     gen_aes(rnd, per('aes'), add)
     gen_ctr(rnd, per('ctr'), tier, add)
     gen_dh(rnd, per('dh'), add)
@@ -465,10 +506,13 @@ def judge(c, ans):
     if g == 'ctx':
         alg = meta['alg']
         t = ans.split()
+        loc = c['line'].split()[2]
+        where = '%s, %s bytes past a 16-byte boundary' % ('heap' if loc[0] == 'h' else 'stack', loc[1:] or '0')
         if t and t[0] == 'ok' and len(t) == 4:
             st('ctx.finalised.' + alg, int(t[1]))
             st('ctx.bytes_read_back', int(t[2]))
-            st('ctx.heap' if c['line'].split()[2] == 'h' else 'ctx.stack', int(t[1]))
+            st('ctx.heap' if loc[0] == 'h' else 'ctx.stack', int(t[1]))
+            st('ctx.placed.%s.%s+%s' % (alg, 'heap' if loc[0] == 'h' else 'stack', loc[1:] or '0'), int(t[1]))
             if t[3] != c['expect']:
                 st('harness.digest_mismatch')
             return None
@@ -477,9 +521,27 @@ def judge(c, ans):
             return ('wipe:ctx-nonzero:%s-final:%s' % (alg, b.split('-')[0]),
                     'build %s: after %s_Final the context (%s bytes, %s) still has %s '
                     'non-zero byte(s), first at offset %s (repetition %s on the same object)'
-                    % (b, alg.upper().replace('-', '_'), d.get('size'),
-                       'heap' if c['line'].split()[2] == 'h' else 'stack',
+                    % (b, alg.upper().replace('-', '_'), d.get('size'), where,
                        d.get('cnt'), d.get('off'), d.get('rep')))
+        st('harness.bad_answer')
+        c['nt'] = False
+        return None
+    if g == 'zero':
+        t = ans.split()
+        d = kv(ans)
+        if t and t[0] == 'ok':
+            st('zero.calls', int(d.get('calls', 0)))
+            st('zero.bytes_wiped', int(d.get('bytes', 0)))
+            st('zero.sweeps')
+            return None
+        if t and t[0] == 'BAD':
+            what = d.get('what')
+            return ('wipe:memzero-%s:%s' % (what, b.split('-')[0]),
+                    'build %s: insecure_memzero(p + %s, %s) on a %s buffer filled with 0x%s (p 16-byte aligned): '
+                    '%s byte(s) %s, first at buffer index %s'
+                    % (b, d.get('off'), d.get('len'), d.get('where'), c['line'].split()[2], d.get('cnt'),
+                       'inside the range are not zero' if what == 'unwiped' else 'outside the range were modified',
+                       d.get('idx')))
         st('harness.bad_answer')
         c['nt'] = False
         return None
@@ -510,6 +572,18 @@ def judge(c, ans):
         if d.get('enc') != '1':
             st('harness.aes_output_differs_from_reference')
         present = int(d.get('present', 0))
+        mis = int(d.get('mis', 0))
+        want_mis = c['line'].endswith(' m')
+        if g == 'aes':
+            st('aes.key_objects_8_mod_16' if mis else 'aes.key_objects_16_aligned')
+            if mis and d.get('nr') == '14' and present:
+                st('aes.key_objects_8_mod_16_with_256bit_key')
+            if bool(mis) != want_mis:
+                st('harness.aes_block_alignment_not_as_requested')
+        else:
+            st('ctr.objects_8_mod_16', mis)
+            if want_mis and mis == 0:
+                st('harness.ctr_block_alignment_not_as_requested')
         if g == 'ctr':
             st('ctr.stream_objects_freed', int(d.get('objs', 0)))
             st('ctr.objects_caching_known_keystream_at_free', present)
@@ -637,7 +711,7 @@ def _shard(a):
     cases = gen_cases(seed, tier, i, n)
     if build.endswith('-soft'):
         # only the AES paths differ without AES-NI
-        cases = [c for c in cases if c['meta']['group'] in ('aes', 'ctr')]
+        cases = [c for c in cases if c['meta']['group'] in ('aes', 'ctr', 'zero')]
     for c in cases:
         c['meta']['build'] = build
     scr = os.path.join(tmp, 'scr-%s-%d' % (build, i))
@@ -660,12 +734,16 @@ REQUIRED = {
     'full': ['ctx.finalised.sha256', 'ctx.finalised.sha1', 'ctx.finalised.md5',
              'ctx.finalised.hmac-sha256', 'ctx.finalised.hmac-sha1',
              'ctx.finalised.hmac-md5', 'ctx.heap', 'ctx.stack',
+             ] + ['ctx.placed.%s%s.%s+%d' % (h, a, w, o) for a in ALGS for h in ('', 'hmac-')
+                  for w in ('heap', 'stack') for o in OFFS[a]] + [
              'dh.frees_scanned', 'dh.positive_control_hits',
              'dhf.frees_scanned', 'dhf.positive_control_hits',
              'dhf.G.fault_points_fired', 'dhf.C.fault_points_fired',
              'dhf.G.returned_-1', 'dhf.C.returned_-1',
              'aws.failed_after_secret_read', 'aws.positive_control_hits'],
-    'aes': ['aes.frees_scanned', 'aes.positive_control_hits',
+    'aes': ['zero.calls', 'aes.key_objects_8_mod_16_with_256bit_key', 'aes.key_objects_16_aligned',
+            'ctr.objects_8_mod_16',
+            'aes.frees_scanned', 'aes.positive_control_hits',
             'aes.cases_secret_present_before_free', 'ctr.frees_scanned',
             'ctr.cases_secret_present_before_free'],
 }
@@ -706,10 +784,15 @@ def run(ctx):
     if aesni == 0:
         ctx.assumptions.append('this host did not select the AES-NI code: crypto_aes_aesni.c key_free was NOT exercised')
     ctx.cov['rule'] = (
-        'cases: (a) hash/HMAC x {sha256,sha1,md5} x context on {exact-size heap block, stack frame} x every message '
+        'cases: (a) hash/HMAC x {sha256,sha1,md5} x context on {end of an exact-size heap block, stack frame} x every legal '
+        'placement (0/8 bytes past a 16-byte boundary for the SHA256 types, 0/4/8/12 for the SHA1 and MD5 types; the placements '
+        'rotate over the lengths, counters ctx.placed.<type>.<where>+<offset>) x every message '
         'length 0..300 (thorough 0..600) + random up to 40000, random partitions incl. zero updates, 1-3 init/update*/final '
-        'rounds on the same object, HMAC keys 0..2000 bytes (both sides of 64); (b) AES keys 128/256 (random + FIPS vectors + '
-        'constant keys) expand/encrypt/free; AES-CTR object scripts (init | alloc+init2, stream lengths around 16-byte '
+        'rounds on the same object, HMAC keys 0..2000 bytes (both sides of 64); (a\') insecure_memzero(p+off, len) for every len '
+        '0..130 (thorough 0..600) x off 0..15 x {heap block with 16 spare bytes, exact heap block, stack array} x 2-5 fill bytes '
+        'per shard: exactly [off, off+len) zero, all other bytes untouched; (b) AES keys 128/256 (random + FIPS vectors + '
+        'constant keys) expand/encrypt/free, every key once with the library\'s blocks 16-byte aligned and once with blocks '
+        'that are 8 mod 16 (wa_misalign), key bytes searched in 8-byte windows; AES-CTR object scripts (half of them with 8-mod-16 blocks; init | alloc+init2, stream lengths around 16-byte '
         'boundaries, init2 re-use with same/other/NULL key, free); DH generate_pub/compute/generate with random and extreme '
         'x and r (0, 2^256-1, short, long carry chains), entropy failures; (c) DH fault enumeration: for every (x, r, peer) '
         'triple of group dhf (ops G=generate_pub, C=compute, D=generate in rotation, same value classes as above) the driver '
@@ -743,7 +826,10 @@ def run(ctx):
         'only blocks the library (or OpenSSL on its behalf) passes to free/realloc are examined: the 1024-byte line buffer '
         'of aws_readkeys and blinding[] in blinded_modexp are stack arrays, and libc\'s stdio buffer of the key file is '
         'freed inside libc - none of them is claimed',
-        'windows with fewer than 8 (text: 4) distinct byte values are not searched (they would match wiped memory)',
+        'windows with fewer than 8 (AES key bytes and text: 4) distinct byte values are not searched (they would match wiped memory)',
+        'context placements are relative to a 16-byte boundary and multiples of the type\'s alignment only (the driver checks _Alignof); '
+        'the freed AES key / stream block is required to be free of key bytes (8-byte windows), not to be all zero; the 8-mod-16 '
+        'allocator mode applies to the library\'s malloc/calloc/realloc/strdup during the AES cases only, OpenSSL\'s blocks are never shifted',
         'DH fault enumeration: one refused allocation per run (no double faults); the fault points are the allocations the '
         'installed OpenSSL makes for these inputs (N is counted per triple, histogram in dh_fault_enumeration), '
         'failures of OpenSSL operations that are not allocation failures are not injected; a refused realloc leaves the old '
